@@ -549,7 +549,7 @@ def cases(which):
 
             def f(k, t):
                 flipped = lambda t_, i: G.delta(i, k) * G.fn("abs", s(t_, k) - 1) + (1 - G.delta(i, k)) * s(t_, i)      # noqa: E731
-                re_, im_ = psi_(flipped, t)
+                re_, im_ = psi_(flipped, t) if kind != "mixed" else rho_el(p, flipped, s, (t,), (t,))
                 if letter == "X":
                     return (re_, im_)
                 cf = 2 * s(t, k) - 1
@@ -561,8 +561,13 @@ def cases(which):
                 from qucumber.observables import SigmaX, SigmaY
                 from qucumber.nn_states import PositiveWaveFunction, ComplexWaveFunction
                 obs = {"X": SigmaX, "Y": SigmaY}[letter]()
-                st = _state(PositiveWaveFunction, rbm_am=binary(p["W"], p["b"], p["c"])) if kind == "positive" else \
-                    _state(ComplexWaveFunction, rbm_am=binary(p["W"], p["b"], p["c"]), rbm_ph=binary(p["Wp"], p["bp"], p["cp"]))
+                if kind == "mixed":
+                    from qucumber.nn_states import DensityMatrix
+                    st = _state(DensityMatrix, rbm_am=purification(p["W"], p["U"], p["b"], p["c"], p["d"]),
+                                rbm_ph=purification(p["Wp"], p["Up"], p["bp"], p["cp"], p["dp"]))
+                else:
+                    st = _state(PositiveWaveFunction, rbm_am=binary(p["W"], p["b"], p["c"])) if kind == "positive" else \
+                        _state(ComplexWaveFunction, rbm_am=binary(p["W"], p["b"], p["c"]), rbm_ph=binary(p["Wp"], p["bp"], p["cp"]))
                 if not _is_g(samples):
                     return obs.apply(st, samples)
                 vc = astvc.VC.cur()
@@ -593,16 +598,17 @@ def cases(which):
 
                 def val(t):
                     num = (G.sum_over(nv, lambda k: f(k, t)[0]), G.sum_over(nv, lambda k: f(k, t)[1]))
-                    den = psi_(samples, t)
+                    den = psi_(samples, t) if kind != "mixed" else (G.fn("exp", -penergy_(p, samples, (t,))), G.ZERO)
                     inv_ = G.fn("inv", den[0] * den[0] + den[1] * den[1])
                     return (num[0] * den[0] + num[1] * den[1]) * inv_ * G.fn("inv", G.to_E(G.size_obj(nv)))
                 return G.build((B,), val)
             return spec
         for letter in ("X", "Y"):
-            for kind, ps in (("positive", P_BIN), ("complex", P_BIN + P_PH)):
+            for kind, ps in (("positive", P_BIN), ("complex", P_BIN + P_PH), ("mixed", P_PUR + P_PURPH)):
                 if letter == "Y" and kind == "positive":
                     continue
-                add("Sigma%s.apply[%s wavefunction] == (1/n) sum over sites of Re( <flipped|psi> coefficient / psi(s) )" % (letter, kind),
+                add(("Sigma%s.apply[%s wavefunction] == (1/n) sum over sites of Re( <flipped|psi> coefficient / psi(s) )" % (letter, kind)) if kind != "mixed" else
+                    ("Sigma%s.apply[density matrix] == (1/n) sum over sites of Re( rho(flipped, s) coefficient / p(s) )" % letter),
                     ps + [("samples", (B, nv), "bits")], sigma_call(letter, kind), sigma_spec(letter, kind))
                 out[-1].pre = lambda: G.require_at_least(nv, 1)
 
